@@ -77,6 +77,18 @@ func (h *HeapState) set(name string, t Term) {
 
 // havocAll forgets everything.
 func (h *HeapState) havocAll() {
+	// private heaps (non-escaping locals, ghost call counters) are never affected by callees
+	keep := map[string]Term{}
+	for name, srt := range h.enc.famSorts {
+		if strings.HasPrefix(name, "L$") {
+			keep[name] = h.get(name, srt)
+		}
+	}
+	defer func() {
+		for k, v := range keep {
+			h.m[k] = v
+		}
+	}()
 	h.m = map[string]Term{}
 	h.parents = nil
 	h.base = fmt.Sprintf("@h%d", h.enc.nextID())
